@@ -385,10 +385,19 @@ func raceDecide(p *interp.Program, runs []*harnessRun, thorough bool, known []Kn
 
 // nativeRaceRun executes one harness natively under `go test -race` and returns the race reports.
 func nativeRaceRun(p *interp.Program, harness string) ([]string, error) {
+	return nativeRaceRunFn(p, harness, "")
+}
+
+// nativeRaceRunFn: with driver != "" the native-only concurrent driver of that name is called directly (it starts its
+// own goroutines); lines starting VERIF-MISMATCH in its output are returned as reports too.
+func nativeRaceRunFn(p *interp.Program, harness, driver string) ([]string, error) {
 	dir, pn := harnessPkg(p, harness)
 	work, _ := os.MkdirTemp(filepath.Join(verifDir, ".work"), "race-")
 	defer os.RemoveAll(work)
 	src := "//go:build verif\n\npackage " + pn + "\n\nimport (\n\t\"os\"\n\t\"testing\"\n\n\t\"github.com/scigolib/hdf5/internal/vrt\"\n)\n\nfunc TestVerifRace(t *testing.T) {\n\t_ = os.Chdir(t.TempDir())\n\tout, _ := vrt.Run(" + harness + ", nil)\n\tt.Log(out)\n}\n"
+	if driver != "" {
+		src = "//go:build verif\n\npackage " + pn + "\n\nimport (\n\t\"os\"\n\t\"testing\"\n)\n\nfunc TestVerifRace(t *testing.T) {\n\t_ = os.Chdir(t.TempDir())\n\tfor _, l := range " + driver + "() {\n\t\tprintln(\"VERIF-MISMATCH \" + l)\n\t}\n}\n"
+	}
 	testFile := filepath.Join(work, "zz_verif_race_test.go")
 	os.WriteFile(testFile, []byte(src), 0o644)
 	repl := map[string]string{}
@@ -438,6 +447,11 @@ func nativeRaceRun(p *interp.Program, harness string) ([]string, error) {
 			pt = pt[:i]
 		}
 		reports = append(reports, pt)
+	}
+	for _, l := range strings.Split(out, "\n") {
+		if strings.HasPrefix(l, "VERIF-MISMATCH ") {
+			reports = append(reports, l)
+		}
 	}
 	return reports, nil
 }
